@@ -531,6 +531,7 @@ type c07Pair struct {
 	stream  string
 	start   int64
 	inc     int64
+	scratch []byte       // owned by the one goroutine that commits this pair
 	started atomic.Int64 // highest offset whose commit has begun
 	done    atomic.Int64 // highest offset whose commit has returned
 }
@@ -666,7 +667,22 @@ func runC07Conc(c C07ConcCase) *vkit.Outcome {
 		defer func() { rec = recover() }()
 		next := p.done.Load() + p.inc
 		p.started.Store(next)
-		jp.commit(c07Event(p.sid, p.stream, next, seq.Add(1)))
+		// the stream name of a real event is an unsafe string over the event's own buffer, and the event
+		// object is reused for other lines as soon as it is committed: the name given to commit lives in a
+		// scratch buffer that is overwritten right after the call
+		name := p.stream
+		if len(p.stream) > 0 {
+			if cap(p.scratch) < len(p.stream) {
+				p.scratch = make([]byte, len(p.stream))
+			}
+			p.scratch = p.scratch[:len(p.stream)]
+			copy(p.scratch, p.stream)
+			name = unsafe.String(&p.scratch[0], len(p.scratch))
+		}
+		jp.commit(c07Event(p.sid, name, next, seq.Add(1)))
+		for i := range p.scratch {
+			p.scratch[i] = 'z'
+		}
 		p.done.Store(next)
 		return nil
 	}
